@@ -145,7 +145,7 @@ NLP = 'atomman/core/NeighborList.py'
 mutant('C03', 'regress-F2 sweep list before ghosts', [(NL, "    # Identify all bins with real or ghost atoms\n    realbins = unique_rows2(xyzindex)\n", ""), (NL, "    # Create iterators based on pbc\n    if pbc_a:", "    realbins = unique_rows2(xyzindex)\n    # Create iterators based on pbc\n    if pbc_a:")], None, None, 'SWEEP-FILL')
 mutant('C03', 'growth copies one column too few', NL, 'for k in range(maxneighbors + 1):', 'for k in range(maxneighbors):', 'INSERTION')
 mutant('C03', 'ghost filter index slip', NL, 'newposv[i, 2] < supermax[2]', 'newposv[i, 1] < supermax[2]', 'GEOMETRY')
-mutant('C03', 'cutoff test non-strict', NL, 'if dmag2[w] < cutoff2:', 'if dmag2[w] <= cutoff2:', 'MEMBERSHIP')
+mutant('C03', 'cutoff test non-strict', NL, 'if dmag2[w] < cutoff2:', 'if dmag2[w] <= cutoff2:', 'CONFIGURATIONS')
 mutant('C03', 'bins smaller than cutoff', NL, 'binsize = cutoff\n', 'binsize = 0.9 * cutoff\n', 'GEOMETRY')
 mutant('C03', 'padding below cutoff', NL, 'supermin[j] -= 1.01 * cutoff', 'supermin[j] -= 0.5 * cutoff', 'GEOMETRY')
 mutant('C03', 'stencil skips upper face test', NL, 'z + dz < 0 or z + dz == numzbins', 'z + dz < 0', 'STENCIL')
@@ -153,8 +153,8 @@ mutant('C03', 'stencil stops one early', NL, 'for dx in range(-1, 2):', 'for dx 
 mutant('C03', 'growth test only on first row', NL, 'if neighbors[uindex, 0] > maxneighbors or neighbors[vindex, 0] > maxneighbors:', 'if neighbors[uindex, 0] > maxneighbors:', 'INSERTION')
 mutant('C03', 'asymmetric store', NL, 'neighbors[vindex, vj] = uindex', 'neighbors[vindex, vj] = vindex', 'INSERTION')
 mutant('C03', 'insertion point not first-greater', NL, 'elif neighbors[uindex, j] > vindex:', 'elif neighbors[uindex, j] < vindex:', 'INSERTION')
-mutant('C03', 'self pairs allowed', NL, 'if uindex != vindex:', 'if True:', 'MEMBERSHIP')
-mutant('C03', 'flags swapped into dmag2_c', NL, 'dmag2_c(upos, vpos, vects, pbc_a, pbc_b, pbc_c)', 'dmag2_c(upos, vpos, vects, pbc_b, pbc_a, pbc_c)', 'MEMBERSHIP')
+mutant('C03', 'self pairs allowed', NL, 'if uindex != vindex:', 'if True:', 'CONFIGURATIONS')
+mutant('C03', 'flags swapped into dmag2_c', NL, 'dmag2_c(upos, vpos, vects, pbc_a, pbc_b, pbc_c)', 'dmag2_c(upos, vpos, vects, pbc_b, pbc_a, pbc_c)', 'CONFIGURATIONS')
 mutant('C03', 'dmag2 kernel transposed c vector', 'atomman/core/dmag.pyx', 'z * bvects[2,j]', 'z * bvects[j,2]', 'MINFOLD')
 mutant('C03', 'getitem ignores coord', NLP, 'return self.__neighbors[key, :self.coord[key]]', 'return self.__neighbors[key]', 'NEIGHBORLIST')
 mutant('C03', 'coord from wrong column', NLP, "        self.__coord = self.__nlist[:, 0]", "        self.__coord = self.__nlist[:, 1]", 'NEIGHBORLIST')
